@@ -355,11 +355,16 @@ package commands
 //@   props C05
 //@   requires @inv gitscanner != nil && waitg != nil
 //@   monitor spawned_atref[0] := old(spawned_atref(0)) + 1
+// A worktree counts as prunable - prune then skips its index - only when Git
+// itself says so with a "prunable" line of `git worktree list --porcelain`; no
+// other attribute (locked, detached, ...) has that effect.  (Frame and result
+// shape assumed; this clause is checked against the body.)
 //@ func github.com/git-lfs/git-lfs/v3/git.GetAllWorktrees
 //@   assumed
 //@   props C05
 //@   modifies fresh
 //@   ensures forall_int(i, result0[i], 0 <= i && i < len(result0) ==> result0[i] != nil)
+//@   loop 1 iter prunable && !iter(prunable) ==> defined(parts) && parts[0] == "prunable"
 //@ func github.com/git-lfs/git-lfs/v3/git.GetCommitSummary
 //@   assumed
 //@   props C05
